@@ -256,6 +256,25 @@ def run(cx: Cx):
               f"consecutive steps ({n_seg} segments on {len(mps)} paths)", where=cx.where(mfn), function=mfn.qualname)
     cx.floor('Model.execute segments examined', n_seg, 4)
 
+    # ------------------------------------------------------------ who may run a system
+    sysc = cx.prog.cls(CORE + 'System')
+    sched = CORE + 'SystemManager.execute_systems'
+    nsite = 0
+    for k, calls in cx.effects.calls.items():
+        kfn = cx.prog.functions.get(k.split('#')[0])
+        for c in calls:
+            tg = [t for t in c.data.get('targets', []) if t.name == 'execute' and t.cls is not None and cx.prog.is_subclass(t.cls, sysc)]
+            if not tg:
+                continue
+            nsite += 1
+            inside_execute = kfn is not None and kfn.name == 'execute' and kfn.cls is not None and cx.prog.is_subclass(kfn.cls, sysc)
+            if k.split('#')[0] != sched and not inside_execute:
+                cx.violation('R-GUARD', k, 'systems-run-through-the-scheduler-only',
+                             f"{k} calls {tg[0].qualname}() directly: the call bypasses the scheduler's completed-model guard (and its "
+                             f"start / end / frequency window), so a system runs on a model that is already complete",
+                             where=cx.where(kfn, c.line) if kfn else '')
+    cx.ok('R-GUARD', f"System.execute is called by the scheduler only ({nsite} call sites examined)", where=cx.where(cx.fn(sched)), function=sched)
+
     # ------------------------------------------------------------ clause 3: batch drivers
     mexec = CORE + 'Model.execute'
     # the drivers are found, not named: every package function outside the scheduler that steps a model
